@@ -29,6 +29,28 @@ class Boom(Exception):
     """raised by the harness' own iterables in the middle of extend()"""
 
 
+class FlakyKey(object):
+    """a caller-supplied key whose __hash__ raises the caller's exception at its fail_at-th call (SIZE_STRESS part 5)"""
+
+    def __init__(self, tag, fail_at):
+        self.tag, self.fail_at, self.calls = tag, fail_at, 0
+
+    def __hash__(self):
+        self.calls += 1
+        if self.calls >= self.fail_at:
+            raise Boom("hash failed")
+        return hash(("x15-flaky", self.tag))
+
+    def __eq__(self, other):
+        return isinstance(other, FlakyKey) and (self.tag, self.fail_at) == (other.tag, other.fail_at)
+
+    def __ne__(self, other):
+        return not self == other
+
+    def __repr__(self):
+        return "FlakyKey(%r, fail_at=%d)" % (self.tag, self.fail_at)
+
+
 class Endless(Exception):
     """a call into the code under test did not return in time (a cyclic structure on a broken tree)"""
 
@@ -176,6 +198,8 @@ MUTABLE = (list, dict, bytearray)
 
 def vkey(v):
     t = type(v)
+    if t is FlakyKey:
+        return ("FlakyKey", v.tag, v.fail_at)
     if t in (str, bytes, int, float, bool, tuple, frozenset):
         return (t.__name__, v)
     if t.__name__ == "_CaseInsensitiveString":
@@ -239,7 +263,7 @@ class ConcBase(object):
     def item(self, it):
         p = self.itab[(it["n"], it["s"], it["k"])]
         if it["k"] == "U":
-            return copy.deepcopy(p)
+            return FlakyKey(p.tag, p.fail_at) if type(p) is FlakyKey else copy.deepcopy(p)
         if it["k"] == "I":
             return U()._strI(str.__str__(p))
         return p
@@ -248,6 +272,8 @@ class ConcBase(object):
         t = type(obj)
         if t.__name__ == "_CaseInsensitiveString":
             k = "I"
+        elif t is FlakyKey:
+            k = "U"
         else:
             try:
                 hash(obj)
@@ -284,13 +310,17 @@ class Conc(ConcBase):
                 self.add_item(n, s, "P", t)
                 self.add_item(n, s, "I", U()._strI(t))
         self.add_item(1, "C", "U", rng.choice([[1, 2], {"a": 1}, {1, 2}, bytearray(b"ab")]))
+        self.add_item(1, "B1", "U", FlakyKey(1, 1))
+        self.add_item(1, "B2", "U", FlakyKey(1, 2))
 
 
 # ------------------------------------------------------------------ variants of the public calls
 
-def make_list(rng, vals):
+def make_list(rng, vals, boom=False):
     """LinkedList(values) in one of its input forms"""
     LL = U().LinkedList
+    if boom:
+        return LL(boom_after(vals)) if rng.random() < 0.5 else LL(values=boom_after(vals))
     if not vals:
         f = rng.randrange(5)
         return [LL, lambda: LL(None), lambda: LL([]), lambda: LL(values=None), lambda: LL(iter(()))][f]()
@@ -626,7 +656,7 @@ class World(object):
         # ---- list level
         l = c["l"] - 1
         if op == "lnew":
-            lst = make_list(rng, [conc.val(v, rng) for v in c["vs"]])
+            lst = make_list(rng, [conc.val(v, rng) for v in c["vs"]], c["k"] == "boom")
             if l < len(self.lists):
                 self.kept.append(self.lists[l])
                 self.lists[l] = lst
@@ -779,7 +809,9 @@ class World(object):
         s_ = c["l"] - 1
         if op == "onew":
             objs = [conc.item(it) for it in c["as"]]
-            if not objs and r < 0.5:
+            if c["k"] == "boom":
+                new = m.OrderedSet(boom_after(objs)) if r < 0.5 else m.OrderedSet(iterable=boom_after(objs))
+            elif not objs and r < 0.5:
                 new = m.OrderedSet() if r < 0.25 else m.OrderedSet(None)
             else:
                 new = m.OrderedSet(objs) if r < 0.4 else m.OrderedSet(iterable=objs) if r < 0.6 else m.OrderedSet(tuple(objs)) if r < 0.8 else m.OrderedSet(o for o in objs)
@@ -801,7 +833,10 @@ class World(object):
             return OK
         if op == "oextend":
             objs = [conc.item(it) for it in c["as"]]
-            st.extend(objs if r < 0.4 else tuple(objs) if r < 0.6 else (o for o in objs) if r < 0.8 else iter(objs))
+            if c["k"] == "boom":
+                st.extend(boom_after(objs)) if r < 0.5 else st.extend(iterable=boom_after(objs))
+            else:
+                st.extend(objs if r < 0.4 else tuple(objs) if r < 0.6 else (o for o in objs) if r < 0.8 else iter(objs))
             return OK
         if op == "ohas":
             o = conc.item(c["a"])
